@@ -42,6 +42,7 @@ def entity(kind, path):
                           D.method(single(T('void')), 'setIt', [arg(T(q(path, C), 1, '&'), 'o'), arg(T('string'), 'n', '"x"')]),
                           D.static(single(T(q(path, C))), 'Make', [arg(T('size_t'), 'n')]),
                           D.static(single(I), 'Make', []), D.static(single(T('void')), 'Other', [arg(I, 'k', '2')]),
+                          D.static(single(I), 'get', [arg(T(q(path, C), 1, '&'), 'of'), arg(I, 'j')]),      # same name as the instance method
                           D.prop(I, 'count'), D.prop(T('double'), 'weight'),
                           D.op(single(T(q(path, C))), '+', [arg(T(q(path, C), 1, '&'), 'o')])])]
     if kind == 'tclass':
@@ -55,6 +56,11 @@ def entity(kind, path):
         C = 'Tw' + s
         return [D.cls(C, [D.ctor(C, [arg(T('A'), 'a'), arg(T('B', 1, '&'), 'b')]), D.method(single(T('B')), 'second', [], 1)],
                       tpl=[D.tparam('A', [I, T('ns::Pose')]), D.tparam('B', [T('double')])])]
+    if kind == 'xtypedef':
+        C = 'Tx' + s
+        return [D.cls(C, [D.ctor(C, [arg(T('T'), 'v')]), D.method(single(T('T')), 'get', [])], tpl=[D.tparam('T')]),
+                D.ns('app' + s.lower(), [D.typedef(T(q(path, C), t=[I]), C + 'Int'), D.cls('Ua' + s, [D.ctor('Ua' + s)]),
+                                         D.ns('ui', [D.typedef(T(q(path, C), t=[T('double')]), C + 'Dbl')])])]
     if kind == 'fwdtd':
         # a foreign (forward-declared) template given a name by a typedef
         return [D.fwd('Fw' + s), D.typedef(T(q(path, 'Fw' + s), t=[I]), 'Fw' + s + 'Int'),
@@ -100,6 +106,7 @@ def entity(kind, path):
         # a class without instance methods directly after a serializing one
         return [D.cls(C, [D.ctor(C), D.method(single(T('void')), 'serialize', [], 1), D.method(single(I), 'x', [], 1)]),
                 D.cls('St' + s, [D.ctor('St' + s), D.static(single(I), 'Count', []), D.prop(I, 'p')]),
+                D.cls('So' + s, [D.ctor('So' + s), D.method(single(T('void')), 'serialize', [], 1)]),       # nothing but serialize
                 D.cls('Sb' + s, [D.method(single(T('void')), 'serializable', [], 1), D.method(single(I), 'y', [], 1)])]
     if kind == 'specialbase':
         # user classes that are called like the built-in fixed-size types, used as base classes
@@ -116,7 +123,7 @@ def entity(kind, path):
     raise ValueError(kind)
 
 
-KINDS = ['class_full', 'tclass', 'typedef', 'enumclass', 'derived', 'noctor', 'enum', 'func', 'tfunc', 'var', 'serial', 'samename', 'prefixnames', 'specialbase']
+KINDS = ['class_full', 'tclass', 'typedef', 'enumclass', 'derived', 'noctor', 'enum', 'func', 'tfunc', 'var', 'serial', 'samename', 'prefixnames', 'specialbase', 'xtypedef']
 
 
 def build(kinds):
@@ -173,7 +180,7 @@ def check_case(case):
     for p in sorted(set(ef) & set(of)):
         d = D.diff_all(ef[p], of[p], p)
         for x in d:
-            add('C10|file-structure|%s|%s' % (ef[p]['kind'], D.diff_locus(x).split('.')[-1]), 'structure of %s' % x)
+            add('C10|file-structure|%s|%s|%s' % (ef[p]['kind'], D.diff_locus(x).split('.')[-1], p.split('/')[-1][:2]), 'structure of %s' % x)
     if sorted(exp['collectors']) != sorted(obs['collectors']):
         add('C10|collectors|%s' % case['ignk'], 'collectors differ: expected %s, observed %s' % (sorted(exp['collectors']), sorted(obs['collectors'])))
     if sorted(exp['rtti']) != sorted(obs['rtti']):
